@@ -198,16 +198,17 @@ def run(ctx: Ctx, repo: Repo, tier: str) -> None:
     except AnalysisError as e:
         concrete_err = e  # the abstract scenarios below still decide their clauses; re-raised at the end if they are silent
     ctx.trust("typing.Any admits everything; Callable, Type[C], Iterator[T] are the documented hints for callables, class objects and generators")
-    rule_get_type(ctx, repo)
-    rule_aliasing(ctx, repo)
-    rule_dict_type(ctx, repo)
-    rule_shrink(ctx, repo)
-    rule_merge(ctx, repo)
+    ctx.attempt(rule_get_type, ctx, repo)
+    ctx.attempt(rule_aliasing, ctx, repo)
+    ctx.attempt(rule_dict_type, ctx, repo)
+    ctx.attempt(rule_shrink, ctx, repo)
+    ctx.attempt(rule_merge, ctx, repo)
     from .memo_rules import tracer_no_memory
-    tracer_no_memory(ctx, repo, "R-C05.6")
+    ctx.attempt(tracer_no_memory, ctx, repo, "R-C05.6")
     from .memo_rules import infer_no_memory
-    infer_no_memory(ctx, repo, "R-C05.7")
+    ctx.attempt(infer_no_memory, ctx, repo, "R-C05.7")
     from .compat_rules import compat_predicates
-    compat_predicates(ctx, repo, "R-C05.8", ("types_equal",))
+    ctx.attempt(compat_predicates, ctx, repo, "R-C05.8", ("types_equal",))
     if concrete_err is not None:
         raise concrete_err
+    ctx.settle()
